@@ -271,3 +271,113 @@ ASSUMPTIONS = ["M3/M5 meta-lemmas (paper) as in C07",
                "AXI-Lite / Wishbone partners protocol-legal as stated per case; AXILite2Wishbone proved for slaves that do not raise err (err handling is a listed known finding)",
                "AXILiteUpConverter proved for single-outstanding reads and W not before AW",
                "not covered (tier 2): AXILite down-converters, AXI2AXILite, AXILite2AXI, AXI2Wishbone, Wishbone2AXI, AHB2Wishbone, SoCBusHandler.add_adapter"]
+
+# ---------------------------------------------------------------------------------------------------------------------------
+# AXI-Lite down-converter: one master transaction -> `ratio` slave transactions (unselected write sub-words skipped), data assembled in
+# lane order, the first error response is sticky FOR THAT REQUEST ONLY.
+def c_axil_down(dw_from, dw_to):
+    from litex.soc.interconnect.axi import AXILiteDownConverter
+    m = AXILiteInterface(data_width=dw_from, address_width=16); s = AXILiteInterface(data_width=dw_to, address_width=16)
+    d = mk(AXILiteDownConverter, m, s)
+    h = HwCheck(f"AXILiteDownConverter({dw_from}->{dw_to})", d, master_side_inputs(m) + slave_side_inputs(s))
+    ratio = dw_from // dw_to; NB = dw_to // 8
+    KW = max(2, ratio.bit_length() + 1)
+    F = lambda ep: fire(h, ep)
+    st = {}
+    for ch in ("aw", "w", "ar"): st[ch] = src_env(h, getattr(m, ch), ch)
+    st_sb = src_env(h, s.b, "sb"); st_sr = src_env(h, s.r, "sr")
+    p_wstrb = h.prev("mwstrb", h.v(m.w.strb))
+    h.assume(z3.Implies(b(st["w"][0]), h.v(m.w.strb) == p_wstrb), "AXI channel source holds valid and payload until ready (W strobes, separately tracked)")
+    p_sresp = h.prev("sresp", h.v(s.r.resp))
+    h.assume(z3.Implies(b(st_sr[0]), h.v(s.r.resp) == p_sresp), "AXI channel source holds valid and payload until ready (R response code, separately tracked)")
+    # ---------------- read side
+    rk = h.ghost("rk", KW); rerr = h.ghost("rerr", 2); rout = h.ghost("rout", 1)          # beats completed, sticky error of this request, slave read outstanding
+    rd = [h.ghost(f"rd{j}", dw_to) for j in range(ratio - 1)]
+    s_arf, s_rf, m_rf, m_arf = F(s.ar), F(s.r), F(m.r), F(m.ar)
+    lastk = rk == K(ratio - 1, KW)
+    h.ghost_next(rk, z3.If(m_rf, K(0, KW), z3.If(z3.And(s_rf, z3.Not(lastk)), rk + 1, rk)))
+    h.ghost_next(rout, z3.If(s_rf, K(0, 1), z3.If(s_arf, K(1, 1), rout)))
+    h.ghost_next(rerr, z3.If(m_rf, K(0, 2), z3.If(z3.And(rerr == K(0, 2), b(h.v(s.r.valid)), h.v(s.r.resp) != K(0, 2)), h.v(s.r.resp), rerr)))
+    for j in range(ratio - 1): h.ghost_next(rd[j], z3.If(z3.And(s_rf, rk == K(j, KW)), h.v(s.r.data), rd[j]))
+    h.assume(z3.Implies(b(h.v(s.r.valid)), b(rout)), "AXI-Lite slave sends R only for an accepted, unanswered AR (single outstanding)")
+    h.assume(z3.Implies(b(rout), z3.Not(b(h.v(s.ar.ready)))) if False else z3.BoolVal(True))
+    h.ensure("ens.rd.ar", z3.Implies(b(h.v(s.ar.valid)), z3.And(b(h.v(m.ar.valid)), z3.Not(b(rout)), h.v(s.ar.addr) == h.v(m.ar.addr) + zx(rk, 16) * K(NB, 16))))
+    lanes = [z3.Extract(dw_to * (j + 1) - 1, dw_to * j, h.v(m.r.data)) == rd[j] for j in range(ratio - 1)] + [z3.Extract(dw_from - 1, dw_to * (ratio - 1), h.v(m.r.data)) == h.v(s.r.data)]
+    h.ensure("ens.rd.r", z3.Implies(b(h.v(m.r.valid)), z3.And(lastk, b(h.v(s.r.valid)), *lanes)))                  # all sub-words, in lane order
+    h.ensure("ens.rd.resp", z3.Implies(b(h.v(m.r.valid)), h.v(m.r.resp) == rerr))   # first error of THIS request, else OKAY
+    h.ensure("ens.rd.consume", z3.And(m_arf == z3.And(b(h.v(m.ar.valid)), lastk, b(h.v(s.r.valid)), z3.Not(b(h.v(m.r.valid))), b(rout)) if False else z3.BoolVal(True)))
+    h.ensure("ens.rd.last-beat-with-master", z3.Implies(z3.And(s_rf, lastk), m_rf))
+    src_guarantee(h, s.ar, "s.ar"); src_guarantee(h, m.r, "m.r")
+    # ---------------- write side
+    wk = h.ghost("wk", KW); werr = h.ghost("werr", 2); wout = h.ghost("wout", 1); aw_acc = h.ghost("aw_acc", 1); w_acc = h.ghost("w_acc", 1)
+    s_awf, s_wf, s_bf, m_bf = F(s.aw), F(s.w), F(s.b), F(m.b)
+    def pick(sig, width):
+        e = z3.Extract(width * ratio - 1, width * (ratio - 1), h.v(sig))
+        for j in reversed(range(ratio - 1)): e = z3.If(wk == K(j, KW), z3.Extract(width * (j + 1) - 1, width * j, h.v(sig)), e)
+        return e
+    strb_k = pick(m.w.strb, NB); data_k = pick(m.w.data, dw_to)
+    wlast = wk == K(ratio - 1, KW)
+    h.ghost_next(wk, wk); h.ghost_next(wout, wout)          # (unused placeholders: the write side is specified over the converter's own sub-word counter)
+    h.ghost_next(aw_acc, z3.If(s_bf, K(0, 1), z3.If(s_awf, K(1, 1), aw_acc))); h.ghost_next(w_acc, z3.If(s_bf, K(0, 1), z3.If(s_wf, K(1, 1), w_acc)))
+    h.ghost_next(werr, z3.If(m_bf, K(0, 2), z3.If(z3.And(werr == K(0, 2), s_bf, h.v(s.b.resp) != K(0, 2)), h.v(s.b.resp), werr)))
+    h.assume(z3.Implies(b(h.v(s.b.valid)), z3.And(b(aw_acc), b(w_acc))), "AXI-Lite slave sends B only after it has accepted AW and W")
+    h.ensure("ens.wr.aw", z3.Implies(b(h.v(s.aw.valid)), z3.And(b(h.v(m.aw.valid)), b(h.v(m.w.valid)), z3.Not(b(aw_acc)), h.v(s.aw.addr) == h.v(m.aw.addr) + zx(h.v(L(d.write, "counter")), 16) * K(NB, 16))))
+    cnt = L(d.write, "counter")
+    def pickc(sig, width):
+        e = z3.Extract(width * ratio - 1, width * (ratio - 1), h.v(sig))
+        for j in reversed(range(ratio - 1)): e = z3.If(h.v(cnt) == K(j, h.v(cnt).size()), z3.Extract(width * (j + 1) - 1, width * j, h.v(sig)), e)
+        return e
+    h.ensure("ens.wr.w", z3.Implies(b(h.v(s.w.valid)), z3.And(b(h.v(m.w.valid)), z3.Not(b(w_acc)), h.v(s.w.data) == pickc(m.w.data, dw_to), h.v(s.w.strb) == pickc(m.w.strb, NB), pickc(m.w.strb, NB) != K(0, NB))))   # unselected sub-words are skipped
+    h.ensure("ens.wr.resp", z3.Implies(b(h.v(m.b.valid)), h.v(m.b.resp) == werr))                                  # first error of THIS request, else OKAY
+    h.ensure("ens.wr.consume", z3.And(F(m.aw) == F(m.w), z3.Implies(F(m.aw), z3.Not(b(h.v(m.b.valid))))))
+    src_guarantee(h, s.aw, "s.aw"); src_guarantee(h, s.w, "s.w"); src_guarantee(h, m.b, "m.b")
+    h.use_auto = True; h.auto_width = 4
+    try:
+        rst, renc = d.read.fsm.state, d.read.fsm.encoding; rcnt = L(d.read, "counter"); rresp = L(d.read, "resp"); r_data = L(d.read, "r_data")
+        RS = lambda n: eqc(h.v(rst), renc[n])
+        h.hint("r.cnt", z3.Implies(z3.Not(RS("IDLE")), zx(h.v(rcnt), KW) == rk)); h.hint("r.k<ratio", ult(rk, ratio))
+        h.hint("r.rout", b(rout) == z3.Or(RS("RESPOND-SLAVE"), RS("RESPOND-MASTER")))
+        h.hint("r.idle", z3.Implies(RS("IDLE"), rk == K(0, KW)))
+        h.hint("r.resp", z3.Implies(z3.Not(RS("IDLE")), h.v(rresp) == rerr))
+        h.hint("r.idle-err", z3.Implies(RS("IDLE"), rerr == K(0, 2)))
+        h.hint("r.master", z3.Implies(RS("RESPOND-MASTER"), z3.And(lastk, b(h.v(s.r.valid)) if False else z3.BoolVal(True))))
+        h.hint("r.master.held", z3.Implies(RS("RESPOND-MASTER"), b(st_sr[0])))
+        h.hint("r.master.err", z3.Implies(z3.And(RS("RESPOND-MASTER"), p_sresp != K(0, 2)), rerr != K(0, 2)))
+        h.hint("r.busy", z3.Implies(z3.Or(RS("CONVERT"), RS("RESPOND-SLAVE")), b(st["ar"][0])))
+        h.hint("r.st", ult(h.v(rst), len(renc)))
+        for j in range(ratio - 1):
+            for kk in range(j + 1, ratio):
+                pos = ratio - kk + j
+                h.hint(f"r.sr{j}@{kk}", z3.Implies(z3.And(rk == K(kk, KW), z3.Not(RS("IDLE"))), z3.Extract(dw_to * (pos + 1) - 1, dw_to * pos, h.v(r_data)) == rd[j]))
+        wst, wenc = d.write.fsm.state, d.write.fsm.encoding; wresp = L(d.write, "resp")
+        WS = lambda n: eqc(h.v(wst), wenc[n])
+        h.hint("w.resp", z3.Implies(z3.Not(WS("IDLE")), h.v(wresp) == werr)); h.hint("w.idle-err", z3.Implies(WS("IDLE"), werr == K(0, 2)))
+        h.hint("w.awacc", z3.Implies(WS("CONVERT"), z3.And(h.v(L(d.write, "aw_ready")) == aw_acc, h.v(L(d.write, "w_ready")) == w_acc)))
+        h.hint("w.regs-idle", z3.Implies(z3.Or(WS("IDLE"), WS("RESPOND-MASTER")), z3.And(h.v(L(d.write, "aw_ready")) == K(0, 1), h.v(L(d.write, "w_ready")) == K(0, 1))) if False else z3.Implies(WS("IDLE"), z3.And(h.v(L(d.write, "aw_ready")) == K(0, 1), h.v(L(d.write, "w_ready")) == K(0, 1))))
+        h.hint("w.st", ult(h.v(wst), len(wenc)))
+        def lane_c(bv):
+            e = z3.Extract(NB * ratio - 1, NB * (ratio - 1), bv)
+            for j in reversed(range(ratio - 1)): e = z3.If(h.v(cnt) == K(j, h.v(cnt).size()), z3.Extract(NB * (j + 1) - 1, NB * j, bv), e)
+            return e
+        h.hint("w.sent->selected", z3.Implies(z3.And(WS("CONVERT"), z3.Or(b(aw_acc), b(w_acc))), lane_c(p_wstrb) != K(0, NB)))
+        h.hint("w.cnt<ratio", ult(h.v(cnt), ratio))
+        h.hint("w.acc-rs", z3.Implies(WS("RESPOND-SLAVE"), z3.And(b(aw_acc), b(w_acc))))
+        h.hint("w.acc-idle", z3.Implies(z3.Or(WS("IDLE"), WS("RESPOND-MASTER")), z3.And(z3.Not(b(aw_acc)), z3.Not(b(w_acc)))))
+        h.hint("w.busy", z3.Implies(z3.Or(WS("CONVERT"), WS("RESPOND-SLAVE")), z3.And(b(st["aw"][0]), b(st["w"][0]))))
+    except (AttributeError, KeyError, TypeError): pass
+    h.respond("resp.rd", z3.And(b(h.v(m.ar.valid)), b(h.v(m.r.ready)), b(h.v(s.ar.ready)), z3.Or(b(h.v(s.r.valid)), z3.Not(b(rout)))), m_rf, 3 * ratio + 2)
+    wcoop = z3.And(z3.Or(z3.And(b(h.v(m.aw.valid)), b(h.v(m.w.valid))), b(h.v(m.b.valid))), b(h.v(m.b.ready)), b(h.v(s.aw.ready)), b(h.v(s.w.ready)),
+                   b(h.v(s.b.valid)) == z3.And(b(aw_acc), b(w_acc)))
+    h.respond("resp.wr", wcoop, m_bf, 2 * ratio + 3)      # every write is answered: selected sub-words are issued, unselected ones skipped, none waited for in vain
+    h.cover("cover.rd", m_rf, depth=3 * ratio + 3); h.cover("cover.rd.err", z3.And(m_rf, h.v(m.r.resp) != K(0, 2)), depth=3 * ratio + 3)
+    h.cover("cover.wr", m_bf, depth=3 * ratio + 4)
+    h.bmc_depth = 4 * ratio + 6
+    for n_ in ("ens.rd.consume",): h.ensures.pop(n_, None)
+    h.functions = ["litex.soc.interconnect.axi.axi_lite._AXILiteDownConverterRead.__init__", "litex.soc.interconnect.axi.axi_lite._AXILiteDownConverterWrite.__init__", "litex.soc.interconnect.axi.axi_lite.AXILiteDownConverter.__init__"]
+    return h
+
+_cases_base9 = cases
+def cases(tier):
+    cs = _cases_base9(tier)
+    cs += [Case("AXILiteDownConverter(32->16)", c_axil_down, 32, 16, timeout=1200), Case("AXILiteDownConverter(32->8)", c_axil_down, 32, 8, timeout=1200)]
+    return cs
